@@ -11,7 +11,7 @@
    with the base directory already made ([pre = true]) or not; [ops_ok h]: every call draws a
    new timestamp and every file set is a map (unique names); [resolve fs (target base)] is
    what a reader of the target path sees. *)
-From Kit Require Import C18.Model C18.Spec C18.Check C18.Proofs_fs C18.Proofs_inv C18.Proofs C18.Proofs_oracle.
+From Kit Require Import C18.Model C18.Spec C18.Check C18.Proofs_fs C18.Proofs_inv C18.Proofs C18.Proofs_oracle C18.Proofs_reader.
 
 (* At EVERY reachable disk state — after every history of Writes of any length, each of them
    complete, failed, or cut off after any number k of its filesystem steps (so: every
@@ -113,3 +113,78 @@ Theorem C18_oracle_sound : forall b pre ops,
   oracle (Case b pre ops) = true <-> obs_spec (map CN b) [] false true 0%N ops.
 Proof. exact oracle_sound. Qed.
 Print Assumptions C18_oracle_sound.
+
+(* ---------------------------------------------------------------------------------------
+   The full trace. [hist_trace base v st h] is the list of ALL filesystem states the history
+   passes through: for every call the state before its first step, after each of its steps
+   (as many as it executes before returning, failing or being cut off) — not only the states
+   at which a call ends. It is the list the harness's model comparison evaluates call by call
+   ([C18_checked_trace_is_op_trace]). *)
+
+(* At every instant: every state between any two filesystem steps of any Write of any
+   history shows nothing or exactly the set of one call. *)
+Theorem C18_every_instant : forall base v pre h f,
+  ops_ok h -> In f (hist_trace base v (mkSt (init_fs base pre) None) h) ->
+  resolve f (target base) = VAbsent \/
+  exists fl, In fl (calls_of h) /\ shows (resolve f (target base)) fl.
+Proof. exact every_instant. Qed.
+Print Assumptions C18_every_instant.
+
+(* A reader that is not atomic. It reads the link at some instant [fi] (getting [to]), then
+   reads the listing and the files THROUGH [to] at arbitrary later instants [fj] while Writes
+   (and crashes, and restarts) go on, and reads the link again at [fk], finding [to] again.
+   Then at every instant in between the link was [to] (the target never returns to a version
+   it has left), nothing at or below [to] differed from what was there at [fi], and the
+   directory listed as exactly the set of one call: whatever mixture of instants the reader's
+   individual reads fell on, it assembled that one complete set. This is the validation
+   protocol of the harness's reader goroutines. *)
+Theorem C18_reader_snapshot_consistent : forall base v pre h a fi b fk c to,
+  ops_ok h ->
+  hist_trace base v (mkSt (init_fs base pre) None) h = a ++ fi :: b ++ fk :: c ->
+  fs_get fi (target base) = Some (NLink to) ->
+  fs_get fk (target base) = Some (NLink to) ->
+  exists fl, In fl (calls_of h) /\
+    forall fj, In fj (fi :: b ++ [fk]) ->
+      fs_get fj (target base) = Some (NLink to) /\
+      (forall q, fs_get fj (to ++ q) = fs_get fi (to ++ q)) /\
+      shows (view_dir fj to) fl.
+Proof. exact reader_snapshot. Qed.
+Print Assumptions C18_reader_snapshot_consistent.
+
+(* The list of states [check_op] (C18/Check.v) walks for one observed call — to compare the
+   views of the concurrent reader with the model — is the trace of that call. *)
+Theorem C18_checked_trace_is_op_trace : forall base v s idx fl crash,
+  trace_steps (sfs s) (match crash with
+                       | Some k => firstn k (write_steps v base (sprev s) idx fl)
+                       | None => write_steps v base (sprev s) idx fl
+                       end) = op_trace base v s (OWrite idx fl crash).
+Proof. exact check_trace_is_op_trace. Qed.
+Print Assumptions C18_checked_trace_is_op_trace.
+
+(* The premise [ops_ok] (a new timestamp per call) cannot be dropped: two Writes of one Dir
+   value drawing the same UnixNano both return nil and leave the target dangling. (Not
+   reproducible on the implementation: time.Now is not injectable in dir.go.) *)
+Theorem C18_same_timestamp_refuted :
+  exists base h s outs,
+    (forall ts fl, In (ts, fl) (ops_hist h) -> files_valid fl) /\
+    run_hist Fixed base (mkSt (init_fs base false) None) h = (s, outs) /\
+    outs = [Done; Done] /\ resolve (sfs s) (target base) = VBroken.
+Proof. exact same_timestamp_refuted. Qed.
+Print Assumptions C18_same_timestamp_refuted.
+
+(* [C18_no_crash_gc] needs ONE Dir value, not only the absence of crashes: after a clean
+   restart (a new Dir, no call crashed, every call returned nil) the version directory of the
+   previous process stays on disk next to the current one. The implementation does the same
+   (replayed through the harness: the observed tree holds both directories). *)
+Theorem C18_restart_leak_refuted :
+  exists base h s outs,
+    ops_ok h /\
+    Forall (fun o => match o with
+                     | OWrite _ fl None => files_valid fl
+                     | OWrite _ _ (Some _) => False
+                     | ORestart => True
+                     end) h /\
+    run_hist Fixed base (mkSt (init_fs base false) None) h = (s, outs) /\
+    outs = [Done; Done] /\ ver_dirs (sfs s) base = [1%N; 0%N].
+Proof. exact restart_leak_refuted. Qed.
+Print Assumptions C18_restart_leak_refuted.
